@@ -79,6 +79,11 @@ type DocItem struct {
 	ImgSeed  uint64  `json:"imgseed,omitempty"`  // pixel contents derive from this
 	Lossy    bool    `json:"lossy,omitempty"`    // JPEG (DCT) instead of Flate
 	ImgReuse int     `json:"imgreuse,omitempty"` // >0: same image.Image object as image item #ImgReuse-1
+	// gradient sharing: path items with the same GradGroup > 0 are painted with ONE gradient object (same
+	// pointer) wherever they are in the document (other pages included); GradStroke: the gradient paints the
+	// stroke (width Width) instead of the fill
+	GradGroup  int  `json:"gradgroup,omitempty"`
+	GradStroke bool `json:"gradstroke,omitempty"`
 	X        float64 `json:"x,omitempty"`        // position in mm (image, text)
 	Y        float64 `json:"y,omitempty"`        //
 	// text
@@ -223,9 +228,12 @@ func gdStopsAlpha0(stops []DocStop) bool {
 }
 
 func gdItemHasFill(it *DocItem) bool {
-	return it.Gradient != "" || (len(it.Fill) >= 4 && it.Fill[3] != 0)
+	return (it.Gradient != "" && !it.GradStroke) || (len(it.Fill) >= 4 && it.Fill[3] != 0)
 }
 func gdItemHasStroke(it *DocItem) bool {
+	if it.Gradient != "" && it.GradStroke {
+		return it.Width > 0
+	}
 	return len(it.Stroke) >= 4 && it.Stroke[3] != 0 && it.Width > 0
 }
 
@@ -824,6 +832,71 @@ func (g *gdGen) inject(class string) {
 
 // GenDoc generates a random document recipe. avoid lists the defect classes (see DocAvoid) that must
 // not be produced; every class that is not avoided is injected into ~7% of the documents.
+// shareGradients makes documents reuse the SAME gradient object: (a) a gradient item may join the group of
+// an earlier gradient item (same page or an earlier page), (b) in multi-page documents a shared "theme"
+// gradient is painted on two or three different pages (first use possibly on a page k > 1), as fill or as
+// stroke, linear or radial, with other gradients possibly defined before it on the later page.
+func (g *gdGen) shareGradients() {
+	c := g.c
+	r := g.r
+	group := 0
+	var earlier []*DocItem
+	for pi := range r.Pages {
+		for ii := range r.Pages[pi].Items {
+			it := &r.Pages[pi].Items[ii]
+			if it.Kind != "path" || it.Gradient == "" {
+				continue
+			}
+			if len(earlier) > 0 && c.Chance(0.4) {
+				src := earlier[c.Intn(len(earlier))]
+				if src.GradGroup == 0 {
+					group++
+					src.GradGroup = group
+				}
+				it.GradGroup = src.GradGroup
+				it.Gradient, it.Grad = src.Gradient, append([]float64{}, src.Grad...)
+				it.Stops = append([]DocStop{}, src.Stops...)
+			}
+			earlier = append(earlier, it)
+		}
+	}
+	if len(r.Pages) >= 2 && c.Chance(0.45) {
+		group++
+		proto := DocItem{Kind: "path"}
+		g.setGradient(&proto, 60, 60)
+		n := 2 + c.Intn(2)
+		if n > len(r.Pages) {
+			n = len(r.Pages)
+		}
+		// n distinct pages
+		idx := map[int]bool{}
+		for len(idx) < n {
+			idx[c.Intn(len(r.Pages))] = true
+		}
+		for pi := range r.Pages {
+			if !idx[pi] {
+				continue
+			}
+			pg := &r.Pages[pi]
+			it := DocItem{Kind: "path", Path: g.simplePath(math.Min(pg.W, 100), math.Min(pg.H, 100))}
+			it.Gradient, it.Grad, it.Stops, it.GradGroup = proto.Gradient, append([]float64{}, proto.Grad...), append([]DocStop{}, proto.Stops...), group
+			switch c.Intn(3) {
+			case 0: // gradient stroke only
+				it.GradStroke, it.Width = true, gdR1(c.Range(0.5, 3))
+			case 1: // gradient stroke over a colour fill
+				it.GradStroke, it.Width = true, gdR1(c.Range(0.5, 3))
+				it.Fill = g.rgb(g.alpha())
+			}
+			// before or after the page's other items (so that other patterns may take P0 first)
+			if c.Bool() {
+				pg.Items = append([]DocItem{it}, pg.Items...)
+			} else {
+				pg.Items = append(pg.Items, it)
+			}
+		}
+	}
+}
+
 func GenDoc(c *hc.Ctx, avoid map[string]bool) *DocRecipe {
 	g := &gdGen{c: c, r: &DocRecipe{}}
 	r := g.r
@@ -885,6 +958,8 @@ func GenDoc(c *hc.Ctx, avoid map[string]bool) *DocRecipe {
 		pg := &r.Pages[c.Intn(len(r.Pages))]
 		pg.Items = append(pg.Items, g.textItem(pg.W, pg.H))
 	}
+
+	g.shareGradients()
 
 	g.meta()
 
@@ -991,16 +1066,18 @@ func gdImage(it *DocItem) image.Image {
 }
 
 // gdStyle builds the canvas.Style of a path item.
-func gdStyle(it *DocItem) canvas.Style {
+func gdStyle(it *DocItem, grad canvas.Gradient) canvas.Style {
 	style := canvas.DefaultStyle
 	style.Fill = canvas.Paint{}
 	style.Dashes = []float64{}
-	if it.Gradient != "" {
-		style.Fill = canvas.Paint{Gradient: gdGradient(it)}
+	if it.Gradient != "" && !it.GradStroke {
+		style.Fill = canvas.Paint{Gradient: grad}
 	} else if it.Fill != nil {
 		style.Fill = canvas.Paint{Color: gdPremul(it.Fill)}
 	}
-	if it.Stroke != nil {
+	if it.Gradient != "" && it.GradStroke {
+		style.Stroke = canvas.Paint{Gradient: grad}
+	} else if it.Stroke != nil {
 		style.Stroke = canvas.Paint{Color: gdPremul(it.Stroke)}
 	}
 	style.StrokeWidth = it.Width
@@ -1072,6 +1149,7 @@ func BuildDoc(r *DocRecipe) (pdfBytes []byte, panicMsg string) {
 	}
 	var p *pdf.PDF
 	var images []image.Image
+	grads := map[int]canvas.Gradient{} // GradGroup -> the one gradient object of that group
 	fonts := map[string]*canvas.Font{} // one *canvas.Font per font name within a document
 	for pi := range r.Pages {
 		pg := &r.Pages[pi]
@@ -1097,7 +1175,18 @@ func BuildDoc(r *DocRecipe) (pdfBytes []byte, panicMsg string) {
 			switch it.Kind {
 			case "path":
 				path := canvas.MustParseSVGPath(it.Path)
-				p.RenderPath(path, gdStyle(it), m)
+				var grad canvas.Gradient
+				if it.Gradient != "" {
+					if it.GradGroup > 0 {
+						if grad = grads[it.GradGroup]; grad == nil {
+							grad = gdGradient(it)
+							grads[it.GradGroup] = grad
+						}
+					} else {
+						grad = gdGradient(it)
+					}
+				}
+				p.RenderPath(path, gdStyle(it, grad), m)
 			case "text":
 				font := fonts[it.Font]
 				if font == nil {
@@ -1157,6 +1246,7 @@ func DocFeatures(r *DocRecipe) []string {
 		add("nosubset")
 	}
 	nImg := 0
+	gradPage := map[int]int{} // GradGroup -> page of its first use
 	for pi := range r.Pages {
 		if len(r.Pages[pi].Items) == 0 {
 			add("page:empty")
@@ -1210,6 +1300,21 @@ func DocFeatures(r *DocRecipe) []string {
 				}
 				if it.Gradient != "" {
 					add("path:gradient-" + it.Gradient)
+					if it.GradStroke {
+						add("path:gradient-stroke")
+					}
+					if it.GradGroup > 0 {
+						if first, ok := gradPage[it.GradGroup]; !ok {
+							gradPage[it.GradGroup] = pi
+						} else if first == pi {
+							add("path:gradient-shared-same-page")
+						} else {
+							add("path:gradient-shared-other-page")
+							if first > 0 {
+								add("path:gradient-shared-first-use-after-page1")
+							}
+						}
+					}
 					if gdStopsStitch(it.Stops) {
 						add("gradient-stitch")
 					}
